@@ -584,8 +584,10 @@ def _r(x):
         return z3.RealVal(int(x))
     if isinstance(x, int):
         return z3.RealVal(x)
+    from fractions import Fraction
+    if isinstance(x, Fraction):
+        return z3.RealVal(x.numerator) / z3.RealVal(x.denominator)
     if isinstance(x, float):
-        from fractions import Fraction
         f = Fraction(x)
         return z3.RealVal(f.numerator) / z3.RealVal(f.denominator)
     raise TypeError('cannot lift %r to Real' % type(x))
